@@ -17,6 +17,9 @@ pub(crate) struct Flow {
     pub callstack: Rc<RefCell<CallStack>>,
     pub output_stream: Vec<Rc<dyn RTObject>>,
     pub current_choices: Vec<Rc<Choice>>,
+    /// The flow's evaluation stack while it is not the current flow.
+    /// (The stack of the current flow lives in `StoryState::evaluation_stack`.)
+    pub evaluation_stack: Vec<Rc<dyn RTObject>>,
 }
 
 impl Flow {
@@ -26,6 +29,7 @@ impl Flow {
             callstack: Rc::new(RefCell::new(CallStack::new(main_content_container))),
             output_stream: Vec::new(),
             current_choices: Vec::new(),
+            evaluation_stack: Vec::new(),
         }
     }
 
@@ -64,6 +68,15 @@ impl Flow {
                 })
             })
             .collect::<Result<Vec<Rc<Choice>>, StoryError>>()?,
+            // evalStack: optional, only written for a flow that is not the current one
+            evaluation_stack: match j_obj.get("evalStack") {
+                Some(j) => json_read::jarray_to_runtime_obj_list(
+                    j.as_array()
+                        .ok_or(StoryError::BadJson("evalStack is not an array.".to_owned()))?,
+                    false,
+                )?,
+                None => Vec::new(),
+            },
         };
 
         flow.callstack.borrow_mut().load_json(
@@ -92,6 +105,14 @@ impl Flow {
             "outputStream".to_owned(),
             json_write::write_list_rt_objs(&self.output_stream)?,
         );
+
+        // evalStack: optional. The current flow's stack is the top level "evalStack".
+        if !self.evaluation_stack.is_empty() {
+            flow.insert(
+                "evalStack".to_owned(),
+                json_write::write_list_rt_objs(&self.evaluation_stack)?,
+            );
+        }
 
         // choiceThreads: optional
         // Has to come BEFORE the choices themselves are written out
